@@ -6734,3 +6734,872 @@ Theorem fin_einsum2_correct sz ta tb out a b :
 Proof.
   intros _. apply fin_einsum2_correct_gen.
 Qed.
+
+(* ================================================================== *)
+(* PART 6 (TdotFacts): the tensordot -> equation conversion, all valid non-negative axes *)
+(* TdotFacts.v -- tensordot: the equation built from an axes specification, and the
+   reference einsum of that equation is the tensordot definition. *)
+(* the libraries FullFacts ComposeFacts PlanFacts CoreFacts SingFacts FinalFacts are now part of Ctg.BMMFacts *)
+
+(* ================================================================== *)
+(* 1. bridges between the Z-level helpers and the nat-level ones        *)
+
+Lemma td_zfind j l : zfind (Z.of_nat j) (zs l) = find_pos j l.
+Proof.
+  unfold zs. induction l as [|x l IH]; cbn [map zfind find_pos]; [reflexivity|].
+  rewrite IH.
+  destruct (Z.eqb_spec (Z.of_nat x) (Z.of_nat j)), (Nat.eqb_spec x j); try reflexivity; lia.
+Qed.
+
+Lemma td_nth_error_zs l k : k < length l -> nth_error (zs l) k = Some (Z.of_nat (nth k l 0)).
+Proof.
+  intros H. unfold zs. rewrite nth_error_map, (nth_error_nth' l 0 H). reflexivity.
+Qed.
+
+Lemma td_py_nth {A} (l : list A) j : py_nth l (Z.of_nat j) = nth_error l j.
+Proof.
+  unfold py_nth. destruct (Z.leb_spec 0 (Z.of_nat j)); [|lia]. rewrite Nat2Z.id. reflexivity.
+Qed.
+
+Lemma td_remove_first_app x A F : In x A -> NoDup A ->
+  remove_first x (A ++ F) = Some (filter (fun y => negb (Nat.eqb y x)) A ++ F).
+Proof.
+  induction A as [|y A IH]; intros Hin ND; [destruct Hin|].
+  inversion ND as [|? ? Hn ND']; subst. cbn [app remove_first filter].
+  destruct (Nat.eqb_spec y x) as [E|E]; cbn [negb].
+  - subst y. f_equal. f_equal. symmetry. apply sf_filter_all. intros z Hz.
+    apply negb_true_iff, Nat.eqb_neq. intros ->. exact (Hn Hz).
+  - destruct Hin as [Hin|Hin]; [congruence|]. rewrite IH by assumption. reflexivity.
+Qed.
+
+Lemma td_find_pos_nth l : NoDup l -> forall k, k < length l -> find_pos (nth k l 0) l = Some k.
+Proof.
+  intros ND k Hk. destruct (sf_find_pos_in (nth k l 0) l (nth_In l 0 Hk)) as [p Hp].
+  rewrite Hp. f_equal. destruct (sf_find_pos_some _ _ _ Hp) as [H1 H2].
+  rewrite (NoDup_nth l 0) in ND. apply ND; assumption.
+Qed.
+
+Lemma td_find_pos_memb j l : memb j l = match find_pos j l with Some _ => true | None => false end.
+Proof.
+  destruct (find_pos j l) as [p|] eqn:E.
+  - apply memb_In. destruct (sf_find_pos_some _ _ _ E) as [H1 H2]. rewrite <- H2. apply nth_In, H1.
+  - apply memb_false. apply sf_find_pos_none, E.
+Qed.
+
+Lemma td_seq_add c n : forall s, seq (c + s) n = map (fun j => c + j) (seq s n).
+Proof.
+  induction n as [|n IH]; intros s; cbn [seq map]; [reflexivity|].
+  f_equal. rewrite <- IH. f_equal. lia.
+Qed.
+
+(* ================================================================== *)
+(* 2. the expected labels                                              *)
+
+(* free axes of an operand of rank r, contracted axes xs *)
+Definition td_free (xs : list nat) (r : nat) : list nat :=
+  filter (fun j => negb (memb j xs)) (seq 0 r).
+(* number of free axes below axb *)
+Definition td_cnt (xb : list nat) (axb : nat) : nat := length (td_free xb axb).
+Definition td_lab_b (ra : nat) (xa xb : list nat) (axb : nat) : nat :=
+  match find_pos axb xb with
+  | Some k => 4 + nth k xa 0
+  | None => 4 + ra + td_cnt xb axb
+  end.
+Definition td_ia (ra : nat) : str := seq 4 ra.
+Definition td_ib (ra rb : nat) (xa xb : list nat) : str := map (td_lab_b ra xa xb) (seq 0 rb).
+Definition td_fresh (ra rb : nat) (xb : list nat) : str :=
+  map (fun axb => 4 + ra + td_cnt xb axb) (td_free xb rb).
+Definition td_io (ra rb : nat) (xa xb : list nat) : str :=
+  filter (fun l => negb (memb (l - 4) xa)) (td_ia ra) ++ td_fresh ra rb xb.
+
+(* the loop, mirrored: labels of b, fresh labels, labels removed from inds_out *)
+Fixpoint td_bl (xa xb axbs : list nat) (fresh : nat) : str :=
+  match axbs with
+  | [] => []
+  | axb :: r =>
+    match find_pos axb xb with
+    | Some k => (4 + nth k xa 0) :: td_bl xa xb r fresh
+    | None => fresh :: td_bl xa xb r (S fresh)
+    end
+  end.
+Fixpoint td_fl (xb axbs : list nat) (fresh : nat) : str :=
+  match axbs with
+  | [] => []
+  | axb :: r =>
+    match find_pos axb xb with
+    | Some _ => td_fl xb r fresh
+    | None => fresh :: td_fl xb r (S fresh)
+    end
+  end.
+Fixpoint td_rl (xa xb axbs : list nat) : str :=
+  match axbs with
+  | [] => []
+  | axb :: r =>
+    match find_pos axb xb with
+    | Some k => (4 + nth k xa 0) :: td_rl xa xb r
+    | None => td_rl xa xb r
+    end
+  end.
+
+(* ================================================================== *)
+(* 3. the loop invariant                                               *)
+
+Lemma td_loop_gen sa sb xa xb :
+  Forall (fun j => j < length sa) xa ->
+  length xa = length xb ->
+  (forall k, k < length xa -> nth (nth k xa 0) sa 0 = nth (nth k xb 0) sb 0) ->
+  forall axbs ib0 A F fresh,
+  Forall (fun j => j < length sb) axbs ->
+  NoDup A -> NoDup (td_rl xa xb axbs) -> incl (td_rl xa xb axbs) A ->
+  tdot_loop (zs xa) (zs xb) sa sb (seq 4 (length sa)) axbs ib0 (A ++ F) fresh =
+  Some (ib0 ++ td_bl xa xb axbs fresh,
+        filter (fun l => negb (memb l (td_rl xa xb axbs))) A ++ F ++ td_fl xb axbs fresh).
+Proof.
+  intros Hxa HL Hdim.
+  induction axbs as [|axb r IH]; intros ib0 A F fresh Hlt NDA NDR Hincl.
+  - cbn [tdot_loop td_bl td_fl td_rl]. rewrite !app_nil_r.
+    rewrite sf_filter_all; [reflexivity|]. intros x _. reflexivity.
+  - inversion Hlt as [|? ? Hlt1 Hlt2]; subst.
+    cbn [tdot_loop td_bl td_fl td_rl] in *. rewrite td_zfind.
+    destruct (find_pos axb xb) as [k|] eqn:Hf.
+    + destruct (sf_find_pos_some _ _ _ Hf) as [Hk Hnth].
+      assert (Hk' : k < length xa) by lia.
+      rewrite (td_nth_error_zs xa k Hk'). rewrite !td_py_nth.
+      assert (Hax : nth k xa 0 < length sa).
+      { rewrite Forall_forall in Hxa. apply Hxa, nth_In, Hk'. }
+      rewrite (nth_error_nth' sa 0 Hax), (nth_error_nth' sb 0 Hlt1).
+      assert (Hs : nth_error (seq 4 (length sa)) (nth k xa 0) = Some (4 + nth k xa 0)).
+      { rewrite (nth_error_nth' _ 0) by (rewrite seq_length; exact Hax).
+        rewrite seq_nth by exact Hax. reflexivity. }
+      rewrite Hs. rewrite (Hdim k Hk'), Hnth, Nat.eqb_refl. cbn [negb].
+      inversion NDR as [|? ? Hn NDR']; subst.
+      assert (HinA : In (4 + nth k xa 0) A) by (apply Hincl; left; reflexivity).
+      rewrite td_remove_first_app by assumption.
+      rewrite IH.
+      * rewrite <- app_assoc. cbn [app]. f_equal. f_equal. f_equal.
+        rewrite filter_filter_comm_and. apply filter_ext. intros l.
+        cbn [memb existsb]. fold (memb l (td_rl xa xb r)).
+        rewrite negb_orb. reflexivity.
+      * exact Hlt2.
+      * apply NoDup_filter, NDA.
+      * exact NDR'.
+      * intros x Hx. apply filter_In. split; [apply Hincl; right; exact Hx|].
+        apply negb_true_iff, Nat.eqb_neq. intros ->. exact (Hn Hx).
+    + rewrite <- app_assoc. rewrite IH by assumption.
+      rewrite <- !app_assoc. reflexivity.
+Qed.
+
+(* ================================================================== *)
+(* 4. closed forms of the mirrored loop                                *)
+
+Lemma td_free_S xs s :
+  td_free xs (S s) = td_free xs s ++ (if memb s xs then [] else [s]).
+Proof.
+  unfold td_free. rewrite seq_S, filter_app. cbn [plus filter].
+  destruct (memb s xs); reflexivity.
+Qed.
+
+Lemma td_cnt_S xb s : td_cnt xb (S s) = td_cnt xb s + (if memb s xb then 0 else 1).
+Proof.
+  unfold td_cnt. rewrite td_free_S, app_length. destruct (memb s xb); reflexivity.
+Qed.
+
+Lemma td_bl_seq ra xa xb n : forall s,
+  td_bl xa xb (seq s n) (4 + ra + td_cnt xb s) = map (td_lab_b ra xa xb) (seq s n).
+Proof.
+  induction n as [|n IH]; intros s; cbn [seq td_bl map]; [reflexivity|].
+  unfold td_lab_b at 1. pose proof (td_cnt_S xb s) as HS. rewrite td_find_pos_memb in HS.
+  destruct (find_pos s xb) as [k|] eqn:Hf.
+  - f_equal. rewrite <- IH. f_equal. lia.
+  - f_equal. rewrite <- IH. f_equal. lia.
+Qed.
+
+Lemma td_fl_seq ra xb n : forall s,
+  td_fl xb (seq s n) (4 + ra + td_cnt xb s) =
+  map (fun axb => 4 + ra + td_cnt xb axb) (filter (fun j => negb (memb j xb)) (seq s n)).
+Proof.
+  induction n as [|n IH]; intros s; cbn [seq td_fl filter map]; [reflexivity|].
+  pose proof (td_cnt_S xb s) as HS. rewrite (td_find_pos_memb s xb) in *.
+  destruct (find_pos s xb) as [k|] eqn:Hf; cbn [negb map].
+  - rewrite <- IH. f_equal. lia.
+  - f_equal. rewrite <- IH. f_equal. lia.
+Qed.
+
+Lemma td_cnt_0 xb : td_cnt xb 0 = 0.
+Proof. reflexivity. Qed.
+
+Lemma td_bl_seq0 ra xa xb n :
+  td_bl xa xb (seq 0 n) (4 + ra) = map (td_lab_b ra xa xb) (seq 0 n).
+Proof. rewrite <- td_bl_seq. rewrite td_cnt_0, Nat.add_0_r. reflexivity. Qed.
+
+Lemma td_fl_seq0 ra xb n :
+  td_fl xb (seq 0 n) (4 + ra) =
+  map (fun axb => 4 + ra + td_cnt xb axb) (filter (fun j => negb (memb j xb)) (seq 0 n)).
+Proof. rewrite <- td_fl_seq. rewrite td_cnt_0, Nat.add_0_r. reflexivity. Qed.
+
+Lemma td_rl_in xa xb axbs l :
+  In l (td_rl xa xb axbs) <->
+  exists axb k, In axb axbs /\ find_pos axb xb = Some k /\ l = 4 + nth k xa 0.
+Proof.
+  induction axbs as [|axb r IH]; cbn [td_rl In].
+  - split; [tauto|]. intros (a & k & [] & _).
+  - destruct (find_pos axb xb) as [k|] eqn:Hf; cbn [In]; rewrite IH; split.
+    + intros [H|(a & k' & H1 & H2 & H3)].
+      * exists axb, k. auto.
+      * exists a, k'. auto.
+    + intros (a & k' & [H1|H1] & H2 & H3).
+      * subst a. left. congruence.
+      * right. exists a, k'. auto.
+    + intros (a & k' & H1 & H2 & H3). exists a, k'. auto.
+    + intros (a & k' & [H1|H1] & H2 & H3); [congruence|]. exists a, k'. auto.
+Qed.
+
+Lemma td_rl_nodup xa xb axbs : NoDup xa -> length xa = length xb -> NoDup axbs ->
+  NoDup (td_rl xa xb axbs).
+Proof.
+  intros NDa HL. induction axbs as [|axb r IH]; intros ND; cbn [td_rl]; [constructor|].
+  inversion ND as [|? ? Hn ND']; subst.
+  destruct (find_pos axb xb) as [k|] eqn:Hf; [|apply IH, ND'].
+  constructor; [|apply IH, ND'].
+  intros Hin. apply td_rl_in in Hin. destruct Hin as (a & k' & H1 & H2 & H3).
+  destruct (sf_find_pos_some _ _ _ Hf) as [Hk Hnth].
+  destruct (sf_find_pos_some _ _ _ H2) as [Hk' Hnth'].
+  assert (E : k = k').
+  { rewrite (NoDup_nth xa 0) in NDa. apply NDa; lia. }
+  subst k'. apply Hn. congruence.
+Qed.
+
+(* the set of removed labels, for the full loop *)
+Lemma td_rl_full xa xb rb l : NoDup xb -> length xa = length xb ->
+  Forall (fun j => j < rb) xb ->
+  (In l (td_rl xa xb (seq 0 rb)) <-> exists j, In j xa /\ l = 4 + j).
+Proof.
+  intros NDb HL Hb. rewrite td_rl_in. split.
+  - intros (a & k & H1 & H2 & H3). exists (nth k xa 0). split; [|exact H3].
+    apply nth_In. destruct (sf_find_pos_some _ _ _ H2). lia.
+  - intros (j & Hj & ->). destruct (In_nth xa j 0 Hj) as (k & Hk & Hnth).
+    exists (nth k xb 0), k. split; [|split].
+    + apply in_seq. rewrite Forall_forall in Hb. specialize (Hb (nth k xb 0)).
+      assert (In (nth k xb 0) xb) by (apply nth_In; lia). apply Hb in H. lia.
+    + apply td_find_pos_nth; [exact NDb|lia].
+    + congruence.
+Qed.
+
+(* ================================================================== *)
+(* 5. T1: the equation                                                 *)
+
+Section td_setting.
+Variables (sa sb xa xb : list nat).
+Hypothesis NDa : NoDup xa.
+Hypothesis NDb : NoDup xb.
+Hypothesis Hxa : Forall (fun j => j < length sa) xa.
+Hypothesis Hxb : Forall (fun j => j < length sb) xb.
+Hypothesis HL : length xa = length xb.
+Hypothesis Hdim : forall k, k < length xa -> nth (nth k xa 0) sa 0 = nth (nth k xb 0) sb 0.
+
+Local Notation ra := (length sa).
+Local Notation rb := (length sb).
+
+Theorem td_equation :
+  tdot_equation (AxPair (zs xa) (zs xb)) sa sb =
+  Some (eq2 (td_ia ra) (td_ib ra rb xa xb) (td_io ra rb xa xb)).
+Proof.
+  unfold tdot_equation. unfold zs at 1 2. rewrite !map_length.
+  fold (zs xa) (zs xb). rewrite HL, Nat.eqb_refl. cbn [negb].
+  unfold SYM0.
+  pose proof (td_loop_gen sa sb xa xb Hxa HL Hdim (seq 0 rb) [] (seq 4 ra) [] (4 + ra)) as HG.
+  rewrite app_nil_r in HG. rewrite HG.
+  - cbn [app]. unfold eq2, td_ia, td_ib, td_io, td_fresh, td_free.
+    rewrite td_bl_seq0, td_fl_seq0. cbn [app]. f_equal. f_equal. f_equal. f_equal. f_equal. f_equal.
+    apply filter_ext_in. intros l Hl. apply in_seq in Hl. f_equal.
+    apply eq_true_iff_eq. rewrite !memb_In, td_rl_full by assumption.
+    split.
+    + intros (j & Hj & ->). replace (4 + j - 4) with j by lia. exact Hj.
+    + intros Hj. exists (l - 4). split; [exact Hj|lia].
+  - apply Forall_forall. intros j Hj. apply in_seq in Hj. lia.
+  - apply seq_NoDup.
+  - apply td_rl_nodup; [exact NDa|exact HL|apply seq_NoDup].
+  - intros l Hl. apply td_rl_full in Hl; try assumption. destruct Hl as (j & Hj & ->).
+    apply in_seq. rewrite Forall_forall in Hxa. apply Hxa in Hj. lia.
+Qed.
+
+(* T3, unconditional part *)
+Corollary td_parse :
+  parse_tdot (AxPair (zs xa) (zs xb)) sa sb =
+  parse_bmm (eq2 (td_ia ra) (td_ib ra rb xa xb) (td_io ra rb xa xb)) sa sb.
+Proof. unfold parse_tdot. rewrite td_equation. reflexivity. Qed.
+
+Corollary td_tensordot_einsum2 a b : tshape a = sa -> tshape b = sb ->
+  tensordot (AxPair (zs xa) (zs xb)) a b =
+  einsum2 (eq2 (td_ia ra) (td_ib ra rb xa xb) (td_io ra rb xa xb)) a b.
+Proof. intros Ha Hb. unfold tensordot, einsum2. rewrite Ha, Hb, td_parse. reflexivity. Qed.
+
+(* ------------------------------------------------------------------ *)
+(* characterisations of the labels                                     *)
+
+Lemma td_ia_add : td_ia ra = map (fun j => 4 + j) (seq 0 ra).
+Proof. unfold td_ia. exact (td_seq_add 4 ra 0). Qed.
+
+Lemma td_ia_nodup : NoDup (td_ia ra).
+Proof. apply seq_NoDup. Qed.
+
+Lemma td_free_in xs r j : In j (td_free xs r) <-> j < r /\ ~ In j xs.
+Proof.
+  unfold td_free. rewrite filter_In, in_seq, negb_true_iff, memb_false. split; intros [H1 H2]; split; try assumption; lia.
+Qed.
+
+Lemma td_free_nodup xs r : NoDup (td_free xs r).
+Proof. apply NoDup_filter, seq_NoDup. Qed.
+
+Lemma td_free_nth_cnt xs r j : j < r -> ~ In j xs ->
+  td_cnt xs j < length (td_free xs r) /\ nth (td_cnt xs j) (td_free xs r) 0 = j.
+Proof.
+  intros Hj Hn. unfold td_cnt.
+  assert (E : td_free xs r = td_free xs j ++ j :: filter (fun i => negb (memb i xs)) (seq (S j) (r - S j))).
+  { unfold td_free. replace r with (j + S (r - S j)) at 1 by lia.
+    rewrite seq_app, filter_app. cbn [plus seq filter].
+    apply memb_false in Hn. rewrite Hn. reflexivity. }
+  rewrite E. rewrite app_length. cbn [length]. split; [lia|].
+  rewrite app_nth2 by lia. rewrite Nat.sub_diag. reflexivity.
+Qed.
+
+Lemma td_cnt_nth xs r p : p < length (td_free xs r) -> td_cnt xs (nth p (td_free xs r) 0) = p.
+Proof.
+  intros Hp. pose proof (nth_In (td_free xs r) 0 Hp) as Hin. apply td_free_in in Hin.
+  destruct Hin as [H1 H2]. destruct (td_free_nth_cnt xs r _ H1 H2) as [H3 H4].
+  pose proof (td_free_nodup xs r) as ND. rewrite (NoDup_nth _ 0) in ND. apply ND; assumption.
+Qed.
+
+Lemma td_io_a : filter (fun l => negb (memb (l - 4) xa)) (td_ia ra) = map (fun j => 4 + j) (td_free xa ra).
+Proof.
+  rewrite td_ia_add, sf_filter_map. unfold td_free. f_equal. apply filter_ext. intros j.
+  replace (4 + j - 4) with j by lia. reflexivity.
+Qed.
+
+Lemma td_fresh_seq r : td_fresh ra r xb = seq (4 + ra) (length (td_free xb r)).
+Proof.
+  unfold td_fresh. induction r as [|r IH]; [reflexivity|].
+  rewrite td_free_S, map_app, IH, app_length. destruct (memb r xb); cbn [map length].
+  - rewrite app_nil_r, Nat.add_0_r. reflexivity.
+  - rewrite seq_app. cbn [seq]. unfold td_cnt. reflexivity.
+Qed.
+
+(* io = free a-labels in axis order ++ free b-labels in axis order *)
+Lemma td_io_eq :
+  td_io ra rb xa xb = map (fun j => 4 + j) (td_free xa ra) ++ seq (4 + ra) (length (td_free xb rb)).
+Proof. unfold td_io. rewrite td_io_a, td_fresh_seq. reflexivity. Qed.
+
+Lemma td_nodup_map_add c l : NoDup l -> NoDup (map (fun j => c + j) l).
+Proof.
+  induction 1 as [|x l Hn ND IH]; cbn [map]; constructor; [|exact IH].
+  rewrite in_map_iff. intros (y & E & Hy). assert (y = x) by lia. subst y. exact (Hn Hy).
+Qed.
+
+Lemma td_io_in l : In l (td_io ra rb xa xb) <->
+  (exists j, j < ra /\ ~ In j xa /\ l = 4 + j) \/ (4 + ra <= l < 4 + ra + length (td_free xb rb)).
+Proof.
+  rewrite td_io_eq, in_app_iff, in_map_iff, in_seq. split; intros [H|H]; try (right; exact H); left.
+  - destruct H as (j & E & Hj). apply td_free_in in Hj. exists j. split; [tauto|]. split; [tauto|]. lia.
+  - destruct H as (j & H1 & H2 & E). exists j. split; [lia|]. apply td_free_in. tauto.
+Qed.
+
+Lemma td_io_nodup : NoDup (td_io ra rb xa xb).
+Proof.
+  rewrite td_io_eq. apply NoDup_app_intro.
+  - apply td_nodup_map_add, td_free_nodup.
+  - apply seq_NoDup.
+  - intros x Hx Hs. apply in_map_iff in Hx. destruct Hx as (j & E & Hj).
+    apply td_free_in in Hj. apply in_seq in Hs. lia.
+Qed.
+
+Lemma td_io_length : length (td_io ra rb xa xb) = length (td_free xa ra) + length (td_free xb rb).
+Proof. rewrite td_io_eq, app_length, map_length, seq_length. reflexivity. Qed.
+
+(* label of a contracted b axis = label of the partner a axis *)
+Lemma td_lab_b_con k : k < length xb ->
+  td_lab_b ra xa xb (nth k xb 0) = 4 + nth k xa 0.
+Proof. intros Hk. unfold td_lab_b. rewrite td_find_pos_nth by assumption. reflexivity. Qed.
+
+(* label of a free b axis = fresh, determined by its rank among the free axes *)
+Lemma td_lab_b_free axb : ~ In axb xb ->
+  td_lab_b ra xa xb axb = 4 + ra + td_cnt xb axb.
+Proof. intros Hn. unfold td_lab_b. rewrite sf_find_pos_notin by exact Hn. reflexivity. Qed.
+
+Lemma td_ib_nth axb : axb < rb -> nth axb (td_ib ra rb xa xb) 0 = td_lab_b ra xa xb axb.
+Proof.
+  intros H. unfold td_ib. rewrite (nth_map_lt _ _ _ 0) by (rewrite seq_length; exact H).
+  rewrite seq_nth by exact H. reflexivity.
+Qed.
+
+Lemma td_ia_nth j : j < ra -> nth j (td_ia ra) 0 = 4 + j.
+Proof. intros H. unfold td_ia. apply seq_nth, H. Qed.
+
+(* fresh labels are not a-labels and are pairwise distinct *)
+Lemma td_lab_b_free_notin_ia axb : ~ In axb xb -> ~ In (td_lab_b ra xa xb axb) (td_ia ra).
+Proof. intros Hn. rewrite td_lab_b_free by exact Hn. unfold td_ia. rewrite in_seq. lia. Qed.
+
+Lemma td_lab_b_free_inj axb axb' : axb < rb -> axb' < rb -> ~ In axb xb -> ~ In axb' xb ->
+  td_lab_b ra xa xb axb = td_lab_b ra xa xb axb' -> axb = axb'.
+Proof.
+  intros H1 H2 N1 N2. rewrite !td_lab_b_free by assumption. intros E.
+  destruct (td_free_nth_cnt xb rb axb H1 N1) as [_ E1].
+  destruct (td_free_nth_cnt xb rb axb' H2 N2) as [_ E2].
+  rewrite <- E1, <- E2. f_equal. lia.
+Qed.
+
+Lemma td_ia_ge4 : Forall (fun c => 4 <= c) (td_ia ra).
+Proof. apply Forall_forall. intros l Hl. apply in_seq in Hl. lia. Qed.
+
+Lemma td_ib_ge4 : Forall (fun c => 4 <= c) (td_ib ra rb xa xb).
+Proof.
+  apply Forall_forall. intros l Hl. apply in_map_iff in Hl. destruct Hl as (axb & E & _).
+  subst l. unfold td_lab_b. destruct (find_pos axb xb); lia.
+Qed.
+
+Lemma td_io_ge4 : Forall (fun c => 4 <= c) (td_io ra rb xa xb).
+Proof.
+  apply Forall_forall. intros l Hl. apply td_io_in in Hl. destruct Hl as [(j & _ & _ & ->)|H]; lia.
+Qed.
+
+Lemma td_io_incl : incl (td_io ra rb xa xb) (td_ia ra ++ td_ib ra rb xa xb).
+Proof.
+  intros l Hl. apply td_io_in in Hl. apply in_app_iff. destruct Hl as [(j & H1 & H2 & ->)|H].
+  - left. apply in_seq. lia.
+  - right. set (p := l - 4 - ra). assert (Hp : p < length (td_free xb rb)) by (unfold p; lia).
+    pose proof (nth_In (td_free xb rb) 0 Hp) as Hin. apply td_free_in in Hin. destruct Hin as [H1 H2].
+    apply in_map_iff. exists (nth p (td_free xb rb) 0). split; [|apply in_seq; lia].
+    rewrite td_lab_b_free by exact H2. rewrite td_cnt_nth by exact Hp. unfold p. lia.
+Qed.
+
+(* ------------------------------------------------------------------ *)
+(* the size function                                                   *)
+
+Definition td_sz (l : nat) : nat :=
+  if l <? 4 + ra then nth (l - 4) sa 1
+  else nth (nth (l - 4 - ra) (td_free xb rb) 0) sb 1.
+
+Lemma td_sz_a j : j < ra -> td_sz (4 + j) = nth j sa 0.
+Proof.
+  intros H. unfold td_sz. destruct (Nat.ltb_spec (4 + j) (4 + ra)); [|lia].
+  replace (4 + j - 4) with j by lia. apply nth_indep, H.
+Qed.
+
+Lemma td_sz_ia : map td_sz (td_ia ra) = sa.
+Proof.
+  rewrite td_ia_add, map_map. rewrite <- (sf_map_nth_seq sa) at 2.
+  apply map_ext_in. intros j Hj. apply in_seq in Hj. apply td_sz_a. lia.
+Qed.
+
+Lemma td_sz_fresh p : p < length (td_free xb rb) ->
+  td_sz (4 + ra + p) = nth (nth p (td_free xb rb) 0) sb 0.
+Proof.
+  intros Hp. unfold td_sz. destruct (Nat.ltb_spec (4 + ra + p) (4 + ra)); [lia|].
+  replace (4 + ra + p - 4 - ra) with p by lia. apply nth_indep.
+  pose proof (nth_In (td_free xb rb) 0 Hp) as Hin. apply td_free_in in Hin. tauto.
+Qed.
+
+Lemma td_sz_ib : map td_sz (td_ib ra rb xa xb) = sb.
+Proof.
+  unfold td_ib. rewrite map_map. rewrite <- (sf_map_nth_seq sb) at 2.
+  apply map_ext_in. intros axb Hax. apply in_seq in Hax.
+  destruct (find_pos axb xb) as [k|] eqn:Hf.
+  - destruct (sf_find_pos_some _ _ _ Hf) as [Hk Hnth]. unfold td_lab_b. rewrite Hf.
+    assert (Hk' : k < length xa) by lia.
+    assert (Hj : nth k xa 0 < ra). { rewrite Forall_forall in Hxa. apply Hxa, nth_In, Hk'. }
+    rewrite td_sz_a by exact Hj. rewrite (Hdim k Hk'), Hnth. reflexivity.
+  - apply sf_find_pos_none in Hf. rewrite td_lab_b_free by exact Hf.
+    destruct (td_free_nth_cnt xb rb axb) as [H1 H2]; [lia|exact Hf|].
+    rewrite td_sz_fresh by exact H1. rewrite H2. reflexivity.
+Qed.
+
+Lemma td_sz_io :
+  map td_sz (td_io ra rb xa xb) = dims_at sa (td_free xa ra) ++ dims_at sb (td_free xb rb).
+Proof.
+  rewrite td_io_eq, map_app, map_map. unfold dims_at. f_equal.
+  - apply map_ext_in. intros j Hj. apply td_free_in in Hj. apply td_sz_a. tauto.
+  - replace (4 + ra) with (4 + ra + 0) at 1 by lia. rewrite (td_seq_add (4 + ra) _ 0), map_map.
+    rewrite <- (sf_map_nth_seq (td_free xb rb)) at 2. rewrite map_map.
+    apply map_ext_in. intros p Hp. apply in_seq in Hp. apply td_sz_fresh. lia.
+Qed.
+
+Lemma td_sz_con : map td_sz (map (fun j => 4 + j) xa) = dims_at sa xa.
+Proof.
+  rewrite map_map. unfold dims_at. apply map_ext_in. intros j Hj. apply td_sz_a.
+  rewrite Forall_forall in Hxa. apply Hxa, Hj.
+Qed.
+
+(* ------------------------------------------------------------------ *)
+(* T2: the reference of the equation is tensordot_ref                  *)
+
+Lemma td_nth_firstn {A} (d : A) : forall n p (l : list A), p < n -> nth p (firstn n l) d = nth p l d.
+Proof.
+  induction n as [|n IH]; intros p l Hp; [lia|].
+  destruct l as [|x l]; cbn [firstn]; [reflexivity|].
+  destruct p as [|p]; cbn [nth]; [reflexivity|]. apply IH. lia.
+Qed.
+
+Lemma td_nth_skipn {A} (d : A) : forall n p (l : list A), nth p (skipn n l) d = nth (n + p) l d.
+Proof.
+  induction n as [|n IH]; intros p l; [reflexivity|].
+  destruct l as [|x l]; cbn [skipn plus nth]; [destruct p; reflexivity|]. apply IH.
+Qed.
+
+Lemma td_con_notin_io j : In j xa -> ~ In (4 + j) (td_io ra rb xa xb).
+Proof.
+  intros Hj Hin. apply td_io_in in Hin. destruct Hin as [(j' & H1 & H2 & E)|H].
+  - assert (j' = j) by lia. subst j'. exact (H2 Hj).
+  - rewrite Forall_forall in Hxa. apply Hxa in Hj. lia.
+Qed.
+
+(* reading the environment at an output label *)
+Lemma td_env_out idx e p : length idx = length (td_io ra rb xa xb) -> p < length (td_io ra rb xa xb) ->
+  elook (combine (td_io ra rb xa xb) idx ++ e) (nth p (td_io ra rb xa xb) 0) = nth p idx 0.
+Proof.
+  intros HLi Hp. rewrite elook_app_l.
+  - apply elook_combine_nth; [apply td_io_nodup|exact Hp|exact HLi].
+  - rewrite sf_map_fst_combine by exact HLi. apply nth_In, Hp.
+Qed.
+
+(* reading the environment at a contracted label *)
+Lemma td_env_con idx c k : length c = length xa -> k < length xa ->
+  elook (combine (td_io ra rb xa xb) idx ++ combine (map (fun j => 4 + j) xa) c) (4 + nth k xa 0) = nth k c 0.
+Proof.
+  intros HLc Hk. rewrite elook_app_r.
+  - replace (4 + nth k xa 0) with (nth k (map (fun j => 4 + j) xa) 0)
+      by (apply (nth_map_lt (fun j => 4 + j) xa k 0 0), Hk).
+    apply elook_combine_nth.
+    + apply td_nodup_map_add, NDa.
+    + rewrite map_length. exact Hk.
+    + rewrite map_length. exact HLc.
+  - intros Hin. apply sf_in_combine_fst in Hin. revert Hin. apply td_con_notin_io, nth_In, Hk.
+Qed.
+
+Lemma td_io_nth_a p : p < length (td_free xa ra) ->
+  nth p (td_io ra rb xa xb) 0 = 4 + nth p (td_free xa ra) 0.
+Proof.
+  intros Hp. rewrite td_io_eq, app_nth1 by (rewrite map_length; exact Hp).
+  apply (nth_map_lt (fun j => 4 + j) _ p 0 0), Hp.
+Qed.
+
+Lemma td_io_nth_b p : p < length (td_free xb rb) ->
+  nth (length (td_free xa ra) + p) (td_io ra rb xa xb) 0 = 4 + ra + p.
+Proof.
+  intros Hp. rewrite td_io_eq, app_nth2 by (rewrite map_length; lia).
+  rewrite map_length. replace (length (td_free xa ra) + p - length (td_free xa ra)) with p by lia.
+  apply seq_nth, Hp.
+Qed.
+
+Lemma td_read_a idx c :
+  length idx = length (td_io ra rb xa xb) -> length c = length xa ->
+  assemble ra (td_free xa ra) (firstn (length (td_free xa ra)) idx) xa c =
+  map (elook (combine (td_io ra rb xa xb) idx ++ combine (map (fun j => 4 + j) xa) c)) (td_ia ra).
+Proof.
+  intros HLi HLc. unfold assemble. rewrite td_ia_add, map_map. apply map_ext_in.
+  intros j Hj. apply in_seq in Hj.
+  destruct (find_pos j (td_free xa ra)) as [p|] eqn:Hf.
+  - destruct (sf_find_pos_some _ _ _ Hf) as [Hp Hnth].
+    rewrite td_nth_firstn by exact Hp.
+    rewrite <- Hnth. rewrite <- td_io_nth_a by exact Hp.
+    rewrite td_env_out; [reflexivity|exact HLi|]. rewrite td_io_length. lia.
+  - apply sf_find_pos_none in Hf.
+    assert (Hin : In j xa).
+    { destruct (in_dec Nat.eq_dec j xa) as [H|H]; [exact H|].
+      exfalso. apply Hf, td_free_in. split; [lia|exact H]. }
+    destruct (sf_find_pos_in j xa Hin) as [q Hq]. rewrite Hq.
+    destruct (sf_find_pos_some _ _ _ Hq) as [Hq1 Hq2].
+    rewrite <- Hq2. rewrite td_env_con by assumption. reflexivity.
+Qed.
+
+Lemma td_read_b idx c :
+  length idx = length (td_io ra rb xa xb) -> length c = length xa ->
+  assemble rb (td_free xb rb) (skipn (length (td_free xa ra)) idx) xb c =
+  map (elook (combine (td_io ra rb xa xb) idx ++ combine (map (fun j => 4 + j) xa) c)) (td_ib ra rb xa xb).
+Proof.
+  intros HLi HLc. unfold assemble, td_ib. rewrite map_map. apply map_ext_in.
+  intros axb Hax. apply in_seq in Hax.
+  destruct (find_pos axb (td_free xb rb)) as [p|] eqn:Hf.
+  - destruct (sf_find_pos_some _ _ _ Hf) as [Hp Hnth].
+    assert (Hfree : ~ In axb xb).
+    { pose proof (nth_In (td_free xb rb) 0 Hp) as Hin. rewrite Hnth in Hin.
+      apply td_free_in in Hin. tauto. }
+    rewrite td_lab_b_free by exact Hfree.
+    rewrite <- Hnth. rewrite td_cnt_nth by exact Hp.
+    rewrite td_nth_skipn. rewrite <- td_io_nth_b by exact Hp.
+    rewrite td_env_out; [reflexivity|exact HLi|]. rewrite td_io_length. lia.
+  - apply sf_find_pos_none in Hf.
+    assert (Hin : In axb xb).
+    { destruct (in_dec Nat.eq_dec axb xb) as [H|H]; [exact H|].
+      exfalso. apply Hf, td_free_in. split; [lia|exact H]. }
+    destruct (sf_find_pos_in axb xb Hin) as [k Hk]. rewrite Hk.
+    destruct (sf_find_pos_some _ _ _ Hk) as [Hk1 Hk2].
+    unfold td_lab_b. rewrite Hk. rewrite td_env_con; [reflexivity|exact HLc|lia].
+Qed.
+
+(* the labels summed by the reference are the contracted a-labels *)
+Lemma td_inner_perm :
+  Permutation (map (fun j => 4 + j) xa)
+              (sf_inner [td_ia ra; td_ib ra rb xa xb] (td_io ra rb xa xb)).
+Proof.
+  apply NoDup_Permutation.
+  - apply td_nodup_map_add, NDa.
+  - apply cp_inner_nodup.
+  - intros l. rewrite cp_inner_in. cbn [concat]. rewrite app_nil_r. split.
+    + intros Hl. apply in_map_iff in Hl. destruct Hl as (j & <- & Hj). split.
+      * apply in_app_iff. left. apply in_seq. rewrite Forall_forall in Hxa. apply Hxa in Hj. lia.
+      * apply td_con_notin_io, Hj.
+    + intros [Hin Hout]. apply in_map_iff. apply in_app_iff in Hin. destruct Hin as [Hin|Hin].
+      * apply in_seq in Hin. exists (l - 4). split; [lia|].
+        destruct (in_dec Nat.eq_dec (l - 4) xa) as [H|H]; [exact H|].
+        exfalso. apply Hout, td_io_in. left. exists (l - 4). split; [lia|]. split; [exact H|lia].
+      * apply in_map_iff in Hin. destruct Hin as (axb & E & Hax). apply in_seq in Hax.
+        destruct (find_pos axb xb) as [k|] eqn:Hf.
+        -- unfold td_lab_b in E. rewrite Hf in E. exists (nth k xa 0). split; [exact E|].
+           apply nth_In. destruct (sf_find_pos_some _ _ _ Hf). lia.
+        -- exfalso. apply Hout. apply sf_find_pos_none in Hf.
+           rewrite td_lab_b_free in E by exact Hf. apply td_io_in. right.
+           destruct (td_free_nth_cnt xb rb axb) as [H1 H2]; [lia|exact Hf|]. lia.
+Qed.
+
+Theorem td_ref_is_tensordot a b : tshape a = sa -> tshape b = sb ->
+  einsum_ref [td_ia ra; td_ib ra rb xa xb] (td_io ra rb xa xb) [a; b] = tensordot_ref xa xb a b.
+Proof.
+  intros Ha Hb.
+  assert (Hs : cp_sized td_sz [td_ia ra; td_ib ra rb xa xb] [a; b]).
+  { apply cp_sized2; [rewrite td_sz_ia; exact Ha|rewrite td_sz_ib; exact Hb]. }
+  assert (Hi : incl (td_io ra rb xa xb) (concat [td_ia ra; td_ib ra rb xa xb])).
+  { cbn [concat]. rewrite app_nil_r. apply td_io_incl. }
+  apply tensor_ext.
+  - apply einsum_ref_wf.
+  - unfold tensordot_ref. cbv zeta. apply tbuild_wf.
+  - rewrite (cp_ref_shape td_sz _ _ _ Hs Hi), td_sz_io.
+    unfold tensordot_ref. cbv zeta. rewrite Ha, Hb. reflexivity.
+  - intros idx Hv. rewrite (cp_ref_shape td_sz _ _ _ Hs Hi) in Hv.
+    rewrite (cp_tget_ref td_sz _ _ _ _ Hs Hi Hv).
+    assert (HLi : length idx = length (td_io ra rb xa xb)).
+    { apply sf_valid_idx_length in Hv. rewrite map_length in Hv. exact Hv. }
+    unfold tensordot_ref. cbv zeta. rewrite Ha, Hb.
+    rewrite tget_tbuild by (rewrite td_sz_io in Hv; exact Hv).
+    rewrite <- (cp_lsum_perm td_sz _ _ _ (cp_Gn_ext _ _) td_inner_perm (td_nodup_map_add 4 xa NDa)).
+    symmetry. apply cp_flat_lsum.
+    + apply cp_Gn_ext.
+    + apply td_nodup_map_add, NDa.
+    + intros x Hx Hin. apply sf_in_combine_fst in Hin. apply in_map_iff in Hx.
+      destruct Hx as (j & <- & Hj). revert Hin. apply td_con_notin_io, Hj.
+    + symmetry. apply td_sz_con.
+    + intros c Hc. apply sf_valid_idx_length in Hc. unfold dims_at in Hc. rewrite map_length in Hc.
+      rewrite cp_Gn2. rewrite <- td_read_a, <- td_read_b by assumption. reflexivity.
+Qed.
+
+(* ------------------------------------------------------------------ *)
+(* T3: the package                                                     *)
+
+Theorem td_tensordot_conditional a b : tshape a = sa -> tshape b = sb ->
+  einsum2 (eq2 (td_ia ra) (td_ib ra rb xa xb) (td_io ra rb xa xb)) a b =
+    Some (einsum_ref [td_ia ra; td_ib ra rb xa xb] (td_io ra rb xa xb) [a; b]) ->
+  tensordot (AxPair (zs xa) (zs xb)) a b = Some (tensordot_ref xa xb a b).
+Proof.
+  intros Ha Hb H. rewrite (td_tensordot_einsum2 a b Ha Hb), H.
+  rewrite (td_ref_is_tensordot a b Ha Hb). reflexivity.
+Qed.
+
+(* the premise, from the general two-operand theorem *)
+Lemma td_einsum2_ref a b : tshape a = sa -> tshape b = sb ->
+  wf_tensor a = true -> wf_tensor b = true ->
+  einsum2 (eq2 (td_ia ra) (td_ib ra rb xa xb) (td_io ra rb xa xb)) a b =
+    Some (einsum_ref [td_ia ra; td_ib ra rb xa xb] (td_io ra rb xa xb) [a; b]).
+Proof.
+  intros Ha Hb Wa Wb. apply (fin_einsum2_correct_gen td_sz).
+  - rewrite td_sz_ia. exact Ha.
+  - rewrite td_sz_ib. exact Hb.
+  - exact Wa.
+  - exact Wb.
+  - apply td_io_nodup.
+  - apply td_io_incl.
+  - apply td_ia_ge4.
+  - apply td_ib_ge4.
+  - apply td_io_ge4.
+Qed.
+
+Theorem td_tensordot_correct a b : tshape a = sa -> tshape b = sb ->
+  wf_tensor a = true -> wf_tensor b = true ->
+  tensordot (AxPair (zs xa) (zs xb)) a b = Some (tensordot_ref xa xb a b).
+Proof.
+  intros Ha Hb Wa Wb. apply td_tensordot_conditional; try assumption.
+  apply td_einsum2_ref; assumption.
+Qed.
+
+End td_setting.
+
+(* ================================================================== *)
+(* 6. the integer form of the axes                                     *)
+
+Lemma td_zrange_seq lo n : zrange (Z.of_nat lo) (Z.of_nat (lo + n)) = zs (seq lo n).
+Proof.
+  unfold zrange, zs.
+  replace (Z.to_nat (Z.of_nat (lo + n) - Z.of_nat lo)) with n by lia.
+  assert (E : seq lo n = map (fun j => lo + j) (seq 0 n)) by (rewrite <- td_seq_add; f_equal; lia).
+  rewrite E, map_map.
+  apply map_ext. intros k. lia.
+Qed.
+
+Theorem td_equation_int n sa sb : n <= length sa ->
+  tdot_equation (AxInt n) sa sb =
+  tdot_equation (AxPair (zs (seq (length sa - n) n)) (zs (seq 0 n))) sa sb.
+Proof.
+  intros Hn. unfold tdot_equation.
+  assert (E1 : zrange (Z.of_nat (length sa) - Z.of_nat n) (Z.of_nat (length sa)) =
+               zs (seq (length sa - n) n)).
+  { rewrite <- td_zrange_seq. f_equal; lia. }
+  assert (E2 : zrange 0 (Z.of_nat n) = zs (seq 0 n)) by exact (td_zrange_seq 0 n).
+  rewrite E1, E2. reflexivity.
+Qed.
+
+Corollary td_tensordot_int n a b : n <= length (tshape a) ->
+  tensordot (AxInt n) a b =
+  tensordot (AxPair (zs (seq (length (tshape a) - n) n)) (zs (seq 0 n))) a b.
+Proof.
+  intros Hn. unfold tensordot, parse_tdot. rewrite td_equation_int by exact Hn. reflexivity.
+Qed.
+
+(* the integer form, end to end *)
+Theorem td_tensordot_int_correct n a b :
+  n <= length (tshape a) -> n <= length (tshape b) ->
+  dims_at (tshape a) (seq (length (tshape a) - n) n) = dims_at (tshape b) (seq 0 n) ->
+  wf_tensor a = true -> wf_tensor b = true ->
+  tensordot (AxInt n) a b =
+  Some (tensordot_ref (seq (length (tshape a) - n) n) (seq 0 n) a b).
+Proof.
+  intros Hna Hnb Hd Wa Wb. rewrite td_tensordot_int by exact Hna.
+  apply (td_tensordot_correct (tshape a) (tshape b)); try reflexivity; try assumption.
+  - apply seq_NoDup.
+  - apply seq_NoDup.
+  - apply Forall_forall. intros j Hj. apply in_seq in Hj. lia.
+  - apply Forall_forall. intros j Hj. apply in_seq in Hj. lia.
+  - rewrite !seq_length. reflexivity.
+  - rewrite seq_length. intros k Hk. unfold dims_at in Hd.
+    apply (f_equal (fun l => nth k l 0)) in Hd.
+    rewrite !(nth_map_lt _ _ _ 0) in Hd by (rewrite seq_length; exact Hk). exact Hd.
+Qed.
+
+(* the pair form with the dimension hypothesis stated with dims_at *)
+Theorem td_tensordot_correct_dims xa xb a b :
+  NoDup xa -> NoDup xb ->
+  Forall (fun j => j < length (tshape a)) xa -> Forall (fun j => j < length (tshape b)) xb ->
+  length xa = length xb -> dims_at (tshape a) xa = dims_at (tshape b) xb ->
+  wf_tensor a = true -> wf_tensor b = true ->
+  tensordot (AxPair (zs xa) (zs xb)) a b = Some (tensordot_ref xa xb a b).
+Proof.
+  intros NDa NDb Ha Hb HL Hd Wa Wb.
+  apply (td_tensordot_correct (tshape a) (tshape b)); try reflexivity; try assumption.
+  intros k Hk. unfold dims_at in Hd. apply (f_equal (fun l => nth k l 0)) in Hd.
+  rewrite !(nth_map_lt _ _ _ 0) in Hd by lia. exact Hd.
+Qed.
+
+(* ================================================================== *)
+(* PART 7 (BridgeFacts): the theorems restated with the executable predicate `consistent` *)
+
+(* Bridge: the full einsum theorems restated with the executable predicate
+   [consistent] as the shape premise. *)
+
+Lemma br_combine_map (f : nat -> nat) : forall (t s : list nat),
+  (forall kv, In kv (combine t s) -> f (fst kv) = snd kv) ->
+  length t = length s -> s = map f t.
+Proof.
+  induction t as [|x t IH]; intros [|y s] H HL; cbn [length] in HL; try discriminate.
+  - reflexivity.
+  - cbn [map]. f_equal.
+    + symmetry. apply (H (x, y)). left. reflexivity.
+    + apply IH; [|lia]. intros kv Hkv. apply H. right. exact Hkv.
+Qed.
+
+Lemma br_consistent2 ta tb out a b :
+  consistent [ta; tb] out [a; b] = true ->
+  let sz := elook (label_sizes [ta; tb] [a; b]) in
+  tshape a = map sz ta /\ tshape b = map sz tb /\
+  wf_tensor a = true /\ wf_tensor b = true /\
+  NoDup out /\ incl out (ta ++ tb).
+Proof.
+  unfold consistent.
+  cbn [combine map forallb fst snd length].
+  intros H.
+  apply andb_prop in H. destruct H as [H H0].
+  apply andb_prop in H. destruct H as [H H1].
+  apply andb_prop in H. destruct H as [H H2].
+  apply andb_prop in H. destruct H as [_ H].
+  apply andb_prop in H. destruct H as [Ha Hb].
+  apply andb_prop in Ha. destruct Ha as [H5 H7].
+  apply andb_prop in Hb. destruct Hb as [Hb _].
+  apply andb_prop in Hb. destruct Hb as [H6 H4].
+  cbn zeta.
+  rewrite forallb_forall in H2, H1.
+  apply Nat.eqb_eq in H5, H6.
+  assert (E : label_sizes [ta; tb] [a; b] = combine ta (tshape a) ++ combine tb (tshape b)).
+  { unfold label_sizes. cbn [combine map concat fst snd]. rewrite app_nil_r. reflexivity. }
+  repeat split.
+  - apply br_combine_map; [|exact H5].
+    intros kv Hkv. specialize (H2 kv). rewrite E in H2 at 1.
+    specialize (H2 (in_or_app _ _ _ (or_introl Hkv))).
+    apply andb_prop in H2. destruct H2 as [H2 _]. apply Nat.eqb_eq in H2. exact H2.
+  - apply br_combine_map; [|exact H6].
+    intros kv Hkv. specialize (H2 kv). rewrite E in H2 at 1.
+    specialize (H2 (in_or_app _ _ _ (or_intror Hkv))).
+    apply andb_prop in H2. destruct H2 as [H2 _]. apply Nat.eqb_eq in H2. exact H2.
+  - exact H7.
+  - exact H4.
+  - apply sf_nodupb_NoDup. exact H0.
+  - intros x Hx. specialize (H1 x Hx). apply memb_In in H1.
+    cbn [concat] in H1. rewrite app_nil_r in H1. exact H1.
+Qed.
+
+Theorem br_einsum2_consistent ta tb out a b :
+  consistent [ta; tb] out [a; b] = true ->
+  Forall (fun c => 4 <= c) ta -> Forall (fun c => 4 <= c) tb ->
+  einsum2 (eq2 ta tb out) a b = Some (einsum_ref [ta; tb] out [a; b]).
+Proof.
+  intros HC Fa Fb.
+  destruct (br_consistent2 _ _ _ _ _ HC) as (Hsa & Hsb & Hwa & Hwb & ND & Hi).
+  apply (fin_einsum2_correct_gen (elook (label_sizes [ta; tb] [a; b]))); try assumption.
+  apply Forall_forall. intros x Hx. apply Hi in Hx.
+  rewrite Forall_forall in Fa, Fb.
+  apply in_app_or in Hx. destruct Hx as [Hx|Hx]; [apply Fa|apply Fb]; exact Hx.
+Qed.
+
+Lemma br_consistent1 ta out a :
+  consistent [ta] out [a] = true ->
+  let sz := elook (label_sizes [ta] [a]) in
+  tshape a = map sz ta /\ wf_tensor a = true /\ NoDup out /\ incl out ta.
+Proof.
+  unfold consistent.
+  cbn [combine map forallb fst snd length].
+  intros H.
+  apply andb_prop in H. destruct H as [H H0].
+  apply andb_prop in H. destruct H as [H H1].
+  apply andb_prop in H. destruct H as [H H2].
+  apply andb_prop in H. destruct H as [_ H].
+  apply andb_prop in H. destruct H as [Ha _].
+  apply andb_prop in Ha. destruct Ha as [H4 H5].
+  cbn zeta.
+  rewrite forallb_forall in H2, H1.
+  apply Nat.eqb_eq in H4.
+  assert (E : label_sizes [ta] [a] = combine ta (tshape a)).
+  { unfold label_sizes. cbn [combine map concat fst snd]. rewrite app_nil_r. reflexivity. }
+  repeat split.
+  - apply br_combine_map; [|exact H4].
+    intros kv Hkv. specialize (H2 kv). rewrite E in H2 at 1.
+    specialize (H2 Hkv).
+    apply andb_prop in H2. destruct H2 as [H2 _]. apply Nat.eqb_eq in H2. exact H2.
+  - exact H5.
+  - apply sf_nodupb_NoDup. exact H0.
+  - intros x Hx. specialize (H1 x Hx). apply memb_In in H1.
+    cbn [concat] in H1. rewrite app_nil_r in H1. exact H1.
+Qed.
+
+Theorem br_einsum1_consistent ta out a :
+  consistent [ta] out [a] = true -> Forall (fun c => 4 <= c) ta ->
+  einsum_single (eq1 ta out) a = Some (einsum_ref [ta] out [a]).
+Proof.
+  intros HC Fa.
+  destruct (br_consistent1 _ _ _ HC) as (Hsa & Hwa & ND & Hi).
+  apply (dg_einsum_single (elook (label_sizes [ta] [a]))); assumption.
+Qed.
+
